@@ -28,26 +28,32 @@ def implToks (r : Req) : List String := (r.impl.splitOn " ").filter (· ≠ "")
 
 def dec32 (s : String) : Option Nat := parseDec s (2 ^ 32)
 
-/-- C20 on a conceal run, exactly the statements of FitProps/C20.lean evaluated on the output `out`:
-only position fields touched (always); under `DistOK`: records stripped exactly inside the stretches and, with
-unique position fields, nothing left of them; with sequential laps / sessions: no start/end position pointing
-into a concealed stretch. -/
+/-- C20 on a conceal run, exactly the statements of FitProps/C20.lean evaluated on the output `out`.
+Always (no hypothesis): same length, only position fields touched (`C20_conceal_only_positions`) — a failure is a failure
+whatever the input. Under `DistOK` (the property's hypothesis; `n/a` without it): records stripped exactly inside the
+stretches (`C20_conceal_records_exact`) and, where the record carries each position field once, nothing left of them
+(`C20_conceal_hides`). For laps and for sessions, when the activity is well-formed (`lapsSeqB`, `lapUniqueB`,
+`recUniqueB` — the hypotheses of `C20_conceal_lap_session_full`, nothing about the records' timestamps): no start/end
+position pointing into a concealed stretch. The answer is `ok` only when EVERY clause was demanded and held; `n/a` when a
+clause was not demanded because a hypothesis of its theorem fails on this input (never `ok` vacuously). -/
 def propConceal (first last : Nat) (ms out : List Message) : String :=
   if out.length != ms.length then "fail:length" else
   if !(ms.zip out).all (fun p => touchB p.1 p.2) then "fail:touched-other-than-positions" else
-  if !distOKB ms then "ok" else
+  if !distOKB ms then "n/a" else
   if !(ms.zip out).all (fun p => !isRecord p.1 || p.2 == hideIf (inEnd last ms) (hideIf (inStart first) p.1)) then "fail:records" else
   if !(ms.zip out).all (fun p => !isRecord p.1 || !(uniqueNumB fnRecordPositionLat p.1 && uniqueNumB fnRecordPositionLong p.1) ||
       !(inStart first p.1 || inEnd last ms p.1) || posFree p.2) then "fail:hides" else
-  -- laps and sessions: within well-formed records only (a duplicated position field survives `RemoveFieldByNum`)
-  -- exactly the hypotheses of `C20_conceal_lap_session_full` (the records move forward in time)
-  if !recUniqueB ms then "ok" else
-  if !recTimesIncB ms then "ok" else
-  if lapsSeqB lapPH ms && lapUniqueB lapPH ms && !noLeakB lapPH first last ms out then "fail:lap-position-into-concealed" else
-  if lapsSeqB sesPH ms && lapUniqueB sesPH ms && !noLeakB sesPH first last ms out then "fail:session-position-into-concealed" else "ok"
+  let recU := recUniqueB ms
+  let lapDem := recU && lapsSeqB lapPH ms && lapUniqueB lapPH ms
+  let sesDem := recU && lapsSeqB sesPH ms && lapUniqueB sesPH ms
+  if lapDem && !noLeakB lapPH first last ms out then "fail:lap-position-into-concealed" else
+  if sesDem && !noLeakB sesPH first last ms out then "fail:session-position-into-concealed" else
+  if lapDem && sesDem then "ok" else "n/a"
 
-def kfConceal (first _last : Nat) (ms : List Message) : String :=
-  if unitsDisagree lapPH first ms || unitsDisagree sesPH first ms then "KF-C20-1" else "-"
+def kfConceal (first last : Nat) (ms : List Message) : String :=
+  let ids := (if unitsDisagree lapPH first ms || unitsDisagree sesPH first ms then ["KF-C20-1"] else []) ++
+    (if overlapTie first last ms then ["KF-C20-4"] else [])
+  if ids.isEmpty then "-" else ",".intercalate ids
 
 def hConceal : Handler := fun r =>
   match r.args with
@@ -121,8 +127,10 @@ def isSublistB : List Message → List Message → Bool
   | _ :: _, [] => false
   | a :: as, b :: bs => if a == b then isSublistB as bs else isSublistB (a :: as) bs
 
-/-- C20 on a reduce run: `Reduced` (decided by `reducedB`) for the interval methods when every record carries
-a valid key; sublist + all non-records kept for RDP -/
+/-- C20 on a reduce run: `ReducedI` (decided by `reducedIB`, `C20_reduce_exact_*_all`) for the interval methods on EVERY
+input — records without a valid key included — and, when every record carries a valid key, `Reduced` as well; sublist +
+all non-records kept for RDP, and with the simplifier's contract exactly the records it kept (`n/a` when the contract
+fails) -/
 def propReduce (m : Method) (ms : List Message) (impl : List String) : String :=
   match impl with
   | "ok" :: rest =>
@@ -132,17 +140,17 @@ def propReduce (m : Method) (ms : List Message) (impl : List String) : String :=
       match m with
       | .distance th =>
         if th == 0 then "fail:accepted-zero-interval" else
-        if !keysValidB dist ms then "n/a" else
-        if reducedB dist wrapSub th none ms out then "ok" else "fail:reduced-distance"
+        if !reducedIB dist wrapSub th 0 false ms out then "fail:reduced-distance" else
+        if keysValidB dist ms && !reducedB dist wrapSub th none ms out then "fail:reduced-distance-valid-keys" else "ok"
       | .time th =>
         if th == 0 then "fail:accepted-zero-interval" else
-        if !keysValidB tstamp ms then "n/a" else
-        if reducedB tstamp wrapSub th none ms out then "ok" else "fail:reduced-time"
+        if !reducedIB tstamp wrapSub th 0 false ms out then "fail:reduced-time" else
+        if keysValidB tstamp ms && !reducedB tstamp wrapSub th none ms out then "fail:reduced-time-valid-keys" else "ok"
       | .rdp _ simplified =>
         if !isSublistB out ms then "fail:not-a-sublist" else
         if out.filter (fun m => !isRecord m) != ms.filter (fun m => !isRecord m) then "fail:non-record-dropped" else
         -- the simplifier's contract: a sublist of the points handed over
-        if !isSublistNat simplified (pointIndexes ms) then "ok" else
+        if !isSublistNat simplified (pointIndexes ms) then "n/a" else
         if out != rdpExpected simplified ms then "fail:rdp-kept-differs-from-simplifier" else "ok"
       | .none => "fail:accepted-without-method"
   | _ => "n/a"
